@@ -1258,6 +1258,66 @@ ATOMIC_ALL(16, short)
 ATOMIC_ALL(32, int)
 ATOMIC_ALL(64, long)
 
+// 128-bit atomics (std::atomic<struct of two words>, tagged pointers).  Exactly one thread runs at
+// any instant, so the operation itself can be performed with plain accesses; the bookkeeping is the
+// same as for the narrower ones.
+typedef __int128 a128;
+a128 __tsan_atomic128_load(const volatile a128* a, int mo) {
+  Task* t = atomic_pre(a, 16, PC());
+  a128 v;
+  __real_memcpy(&v, (const void*)a, 16);
+  atomic_post(t, a, mo, true, false);
+  return v;
+}
+void __tsan_atomic128_store(volatile a128* a, a128 v, int mo) {
+  Task* t = atomic_pre(a, 16, PC());
+  if (ws.active) ws_note((uintptr_t)a, 16, PC());
+  __real_memcpy((void*)a, &v, 16);
+  atomic_post(t, a, mo, false, true);
+}
+a128 __tsan_atomic128_exchange(volatile a128* a, a128 v, int mo) {
+  Task* t = atomic_pre(a, 16, PC());
+  a128 r;
+  __real_memcpy(&r, (const void*)a, 16);
+  __real_memcpy((void*)a, &v, 16);
+  atomic_post(t, a, mo, true, true);
+  return r;
+}
+int __tsan_atomic128_compare_exchange_strong(volatile a128* a, a128* c, a128 v, int mo, int fmo) {
+  Task* t = atomic_pre(a, 16, PC());
+  a128 cur;
+  __real_memcpy(&cur, (const void*)a, 16);
+  int ok = cur == *c;
+  if (ok) __real_memcpy((void*)a, &v, 16);
+  else *c = cur;
+  atomic_post(t, a, ok ? mo : fmo, true, ok != 0);
+  return ok;
+}
+int __tsan_atomic128_compare_exchange_weak(volatile a128* a, a128* c, a128 v, int mo, int fmo) {
+  return __tsan_atomic128_compare_exchange_strong(a, c, v, mo, fmo);
+}
+a128 __tsan_atomic128_compare_exchange_val(volatile a128* a, a128 c, a128 v, int mo, int fmo) {
+  a128 expected = c;
+  __tsan_atomic128_compare_exchange_strong(a, &expected, v, mo, fmo);
+  return expected;
+}
+#define ATOMIC128_RMW(NAME, EXPR)                                  \
+  a128 __tsan_atomic128_##NAME(volatile a128* a, a128 v, int mo) { \
+    Task* t = atomic_pre(a, 16, PC());                             \
+    a128 r;                                                        \
+    __real_memcpy(&r, (const void*)a, 16);                         \
+    a128 n = EXPR;                                                 \
+    __real_memcpy((void*)a, &n, 16);                               \
+    atomic_post(t, a, mo, true, true);                             \
+    return r;                                                      \
+  }
+ATOMIC128_RMW(fetch_add, r + v)
+ATOMIC128_RMW(fetch_sub, r - v)
+ATOMIC128_RMW(fetch_and, r & v)
+ATOMIC128_RMW(fetch_or, r | v)
+ATOMIC128_RMW(fetch_xor, r ^ v)
+ATOMIC128_RMW(fetch_nand, ~(r & v))
+
 void __tsan_atomic_thread_fence(int mo) {
   // Fence-based publication (C++ [atomics.fences]): a release fence followed by a relaxed store
   // synchronises with a relaxed load followed by an acquire fence.
@@ -1657,15 +1717,33 @@ int sem_wait(sem_t* s) {
   if (!real_sem_wait) resolve_real();
   return real_sem_wait(s);
 }
+// sleeping inside an operation (back-off loops): simulated time has no duration to wait for, the
+// sleeper simply lets every other runnable task go first
+static int sleep_model(Task* t, uint32_t pc) {
+  t->in_rt = 1;
+  yield_point(t, EV_CLOCK, 1, pc);
+  if (g.cfg.strategy != S_EXPLICIT) {
+    int to = next_rr(t->id);
+    if (to >= 0) do_switch(t, to, 5);
+  }
+  t->in_rt = 0;
+  return 0;
+}
 int nanosleep(const struct timespec* a, struct timespec* b) {
   Task* t = live_task();
-  if (t) unsupported(t, "nanosleep");
+  if (t) return sleep_model(t, PC());
+  if (!real_nanosleep) resolve_real();
+  return real_nanosleep(a, b);
+}
+int clock_nanosleep(clockid_t, int, const struct timespec* a, struct timespec* b) {
+  Task* t = live_task();
+  if (t) return sleep_model(t, PC());
   if (!real_nanosleep) resolve_real();
   return real_nanosleep(a, b);
 }
 int usleep(useconds_t us) {
   Task* t = live_task();
-  if (t) unsupported(t, "usleep");
+  if (t) return sleep_model(t, PC());
   if (!real_usleep) resolve_real();
   return real_usleep(us);
 }
